@@ -23,14 +23,43 @@ def _cc(cmd, cwd=None):
         raise core.HarnessError("C build failed: %s\n%s" % (" ".join(cmd), p.stdout.decode("utf-8", "replace")[-3000:]))
 
 
+import atexit
+import threading
+
+_lock = threading.Lock()
+_cache = {}
+_dirs = []
+
+
+def _cleanup():
+    for d in _dirs:
+        shutil.rmtree(d, ignore_errors=True)
+
+
+atexit.register(_cleanup)
+
+
 def build(variant, san="native", extra_defs=(), extra_srcs=(), name=None):
     """variant: 'asm' (Unix .S + Windows-GNU .S via ms_abi trampolines) or 'int' (C intrinsics).
-    san: native | asan | tsan. Returns path of the executable."""
+    san: native | asan | tsan. Returns path of the executable. Each check process builds into
+    its own directory (removed at exit) so that concurrent checks never collide; within one
+    process a variant is built once."""
+    key = (variant, san, tuple(extra_defs), tuple(extra_srcs), name)
+    with _lock:
+        if key in _cache:
+            return _cache[key]
+        exe = _build(variant, san, extra_defs, extra_srcs, name)
+        _cache[key] = exe
+        return exe
+
+
+def _build(variant, san, extra_defs, extra_srcs, name):
     name = name or "cdrv_%s_%s" % (variant, san)
-    out = os.path.join(BUILD, name)
+    out = os.path.join(BUILD, "%s-%d" % (name, os.getpid()))
     if os.path.isdir(out):
         shutil.rmtree(out)
     os.makedirs(out)
+    _dirs.append(out)
     if san == "native":
         cc = "gcc"
         cflags = ["-O2", "-g", "-fstack-protector-all", "-Wall"]
